@@ -330,7 +330,63 @@ def rule_negotiated_version(ctx):
     ctx.require(n_kex >= 2, "C10.NEG-VERSION: key exchange constructions in the TLS 1.3 handshakes not found")
 
 
+def rule_der_rest(ctx):
+    """DER-REST: a signature is accepted only if it is exactly SEQUENCE { INTEGER r, INTEGER s }.  Every
+    remainder a DER `remove_*` step hands back is either fed to the next step or tested by a gate that
+    refuses the signature - and the gate tests THAT remainder (the definition of the step reaches the
+    test).  A remainder that is dropped, or a test that looks at an older remainder, lets trailing
+    bytes through (signature malleability)."""
+    R = "C10.DER-REST"
+    DER = ("remove_sequence", "remove_integer", "remove_octet_string", "remove_bitstring", "remove_object",
+           "remove_constructed")
+    n_steps = 0
+    for fi in ctx.index.all_functions():
+        if not any(call_name(c) in DER for c in calls_in(fi.node)):
+            continue
+        g = ctx.an.cfg(fi)
+        steps = [n for n in g.nodes if n.kind == "stmt" and isinstance(n.ast, ast.Assign)
+                 and isinstance(n.ast.value, ast.Call) and call_name(n.ast.value) in DER
+                 and len(n.ast.targets) == 1 and isinstance(n.ast.targets[0], ast.Tuple)
+                 and len(n.ast.targets[0].elts) == 2 and isinstance(n.ast.targets[0].elts[1], ast.Name)]
+        exits = [n for n in g.nodes if n.kind == "return"]
+        for st in steps:
+            n_steps += 1
+            rem = st.ast.targets[0].elts[1].id
+            used = False
+            for u in g.nodes:
+                if u is st or u.ast is None:
+                    continue
+                e = u.expr if (u.kind == "test" and u.expr is not None) else u.ast
+                if u.kind == "test":
+                    reads = any(isinstance(x, ast.Name) and x.id == rem for x in ast.walk(e))
+                    gate = reads and bool(dead_edge_labels(g, u, [n for n in exits if not _refusal(n)]))
+                    ok_use = gate
+                elif u.kind == "stmt" and isinstance(u.ast, ast.Assign) and isinstance(u.ast.value, ast.Call) \
+                        and call_name(u.ast.value) in DER:
+                    ok_use = any(isinstance(a, ast.Name) and a.id == rem for a in u.ast.value.args)
+                else:
+                    ok_use = False
+                if ok_use and st.id in {d.id for d in reaching_defs(g, u, rem)}:
+                    used = True
+                    break
+            ctx.check(R, used, fi.qname, st.ast,
+                      "the remainder `%s` left by `%s` is neither parsed further nor checked to be empty before "
+                      "the value is accepted: bytes after it are ignored" % (rem, norm(st.ast)), fi.loc(st.ast),
+                      what="%s: remainder of `%s` consumed or refused" % (fi.short, norm(st.ast)))
+    if n_steps < 3:
+        raise AnalysisError("%s: only %d DER steps found (confirmed 3)" % (R, n_steps))
+
+
+def _refusal(n):
+    """a return of False / None, i.e. not an accepting exit"""
+    if n.kind != "return" or n.ast is None:
+        return False
+    v = n.ast.value
+    return v is None or (isinstance(v, ast.Constant) and v.value in (False, None))
+
+
 RULES = [
+    ("C10.DER-REST", "quick", rule_der_rest),
     ("C10.NEG-VERSION", "quick", rule_negotiated_version),
     ("C10.SIGN-VERIFY", "quick", rule_sign_verify),
     ("C10.PEER-VALUES", "quick", rule_peer_values),
